@@ -375,6 +375,9 @@ theorem run_keeps_config (pop : List Nat → Option (Nat × List Nat)) (g : Grap
       simp only
       rw [loop_size g filt _ pop _ _ s' _ hl]; exact hps
 
+/-- non-vacuity: a successful run on `exObj` -/
+example : ∃ a', runWith popBack utGraph noIn3 exObj = .ok (false, a') := ⟨_, rfl⟩
+
 /-- any history of earlier successful runs (with arbitrary graphs, filters and disciplines) -/
 inductive After (a : Searcher) : Searcher → Prop where
   | refl : After a a
@@ -442,8 +445,8 @@ theorem bfs_shortest (g : Graph) (filt : Nat → Bool) (sr sr' : Searcher) (hd :
       rw [he] at h
       exact absurd h.1 (by simp)
 
-/-- non-vacuity: BFS from 0 to {3} on the unit-test graph: 3 edges, and the judge's checker confirms that nothing
-    shorter exists while DFS's path with the filter {0} is longer than BFS's with no filter is not (both 3) -/
+/-- non-vacuity: BFS from 0 to {3} on the unit-test graph succeeds; its path has 3 edges, and the judge's checker
+    confirms that no target is within 2 edges (`noShorterB … 3`) while one is within 3 (`noShorterB … 4` fails) -/
 example : (∃ sr', runWith popFront utGraph (fun _ => false) exObj = .ok (true, sr')) ∧ DisjointST exObj ∧
     Reach.noShorterB utGraph (fun _ => false) [0] [3] 3 = true ∧
     Reach.noShorterB utGraph (fun _ => false) [0] [3] 4 = false :=
@@ -466,6 +469,9 @@ theorem fuel_sufficient (pop : List Nat → Option (Nat × List Nat)) (hp : PopL
     · rename_i hl; exact absurd hl hne
     · simp
     · simp
+
+/-- non-vacuity: both disciplines of the Rust satisfy the hypothesis -/
+example : PopLen popFront ∧ PopLen popBack := ⟨popFront_len, popBack_len⟩
 
 theorem fuel_sufficient_bfs_dfs (g : Graph) (filt : Nat → Bool) (sr : Searcher) :
     runWith popFront g filt sr ≠ .fuel ∧ runWith popBack g filt sr ≠ .fuel :=
@@ -504,5 +510,54 @@ example : (∀ v, v ∈ exObj.sources → v < exObj.parents.size) ∧
   show v < 6
   match u, hu' with
   | 0, _ | 1, _ | 2, _ | 3, _ | 4, _ | 5, _ => simp [utGraph] at hm <;> omega
+
+/-! ### the same statements in terms of the lists given to `BFS::new` / `DFS::new` (what the judge checks) -/
+
+/-- fresh object over a non-empty target list, successful run: node path, iterator and edge path are three views of
+    one simple path from a listed source to a listed target along existing unfiltered edges -/
+theorem found_paths_lists (pop : List Nat → Option (Nat × List Nat)) (hp : PopOK pop) (g : Graph)
+    (filt : Nat → Bool) (srcs tgts : List Nat) (n : Nat) (sr sr' : Searcher)
+    (hn : new srcs tgts n = some sr) (hne : tgts ≠ []) (h : runWith pop g filt sr = .ok (true, sr')) :
+    ∃ p es, nodePath sr' = some p ∧ pathIter sr' = some p.reverse ∧ edgePath g sr' = some es ∧
+      Reach.ValidPath g filt (· ∈ srcs) (· ∈ tgts) p ∧ Reach.EdgesJoin g p es := by
+  obtain ⟨e1, e2, _, _, e5, _, _⟩ := new_spec srcs tgts n sr hn
+  have he : sr.emptyTargets = false := by
+    rw [e2]; cases tgts with
+    | nil => exact absurd rfl hne
+    | cons _ _ => rfl
+  obtain ⟨p, es, h1, h2, h3, h4⟩ := paths_coherent pop hp g filt sr sr' he h
+  obtain ⟨t, p', _, h6, _, h8⟩ := found_sound pop hp g filt sr sr' he h
+  rw [h1] at h6
+  cases h6
+  refine ⟨p, es, h1, h2, h3, ?_, h4⟩
+  obtain ⟨⟨s, hs1, hs2⟩, ⟨t', ht1, ht2⟩, hnd, hlk⟩ := h8
+  exact ⟨⟨s, hs1, e1 ▸ hs2⟩, ⟨t', ht1, (e5 t').mp ht2⟩, hnd, hlk⟩
+
+/-- BFS on a fresh object over disjoint lists: no listed target can be reached from a listed source with fewer
+    unfiltered edges than the node path has -/
+theorem bfs_shortest_lists (g : Graph) (filt : Nat → Bool) (srcs tgts : List Nat) (n : Nat) (sr sr' : Searcher)
+    (hn : new srcs tgts n = some sr) (hne : tgts ≠ []) (hdis : ∀ v, v ∈ srcs → v ∉ tgts)
+    (h : runWith popFront g filt sr = .ok (true, sr')) :
+    ∃ p, nodePath sr' = some p ∧ Reach.NoShorter g filt (· ∈ srcs) (· ∈ tgts) (p.length - 1) := by
+  obtain ⟨e1, e2, _, _, e5, _, _⟩ := new_spec srcs tgts n sr hn
+  have he : sr.emptyTargets = false := by
+    rw [e2]; cases tgts with
+    | nil => exact absurd rfl hne
+    | cons _ _ => rfl
+  have hd : DisjointST sr := by
+    intro v hv
+    rw [e1] at hv
+    cases hq : gt sr.targetSet v with
+    | false => rfl
+    | true => exact absurd ((e5 v).mp hq) (hdis v hv)
+  obtain ⟨p, h1, _, h3⟩ := bfs_shortest g filt sr sr' hd he h
+  refine ⟨p, h1, ?_⟩
+  intro k v hk hw ht
+  exact h3 k v hk (e1 ▸ hw) ((e5 v).mpr ht)
+
+/-- non-vacuity for both: `BFS::new(&[0,1], &[3,5], 6)` succeeds on the unit-test graph with the path 1,5 -/
+example : ∃ sr sr', new [0, 1] [3, 5] 6 = some sr ∧ runWith popFront utGraph (fun _ => false) sr = .ok (true, sr') ∧
+    nodePath sr' = some [1, 5] ∧ (∀ v, v ∈ [0, 1] → v ∉ [3, 5]) :=
+  ⟨_, _, rfl, rfl, by decide, by decide⟩
 
 end Tbx.Props.C15
